@@ -404,12 +404,10 @@ func (p *moduleDataStore) putModuleData(
 		}
 		if err == nil {
 			var externalModuleData externalModuleData
-			if err := encoding.UnmarshalYAMLNonStrict(data, &externalModuleData); err != nil {
-				return err
-			}
 			// If a valid module.yaml is present, since module.yaml is always written last, we
 			// assume that there is valid module data, and we do not attempt to write new data here.
-			if externalModuleData.isValid() {
+			// A module.yaml that cannot be parsed is treated like an invalid one: it is overwritten.
+			if err := encoding.UnmarshalYAMLNonStrict(data, &externalModuleData); err == nil && externalModuleData.isValid() {
 				return nil
 			}
 		}
@@ -451,11 +449,8 @@ func (p *moduleDataStore) putModuleData(
 		}
 		if err == nil {
 			var externalModuleData externalModuleData
-			if err := encoding.UnmarshalYAMLNonStrict(data, &externalModuleData); err != nil {
-				return err
-			}
 			// If a valid module.yaml is present, then we do not overwrite with new data.
-			if externalModuleData.isValid() {
+			if err := encoding.UnmarshalYAMLNonStrict(data, &externalModuleData); err == nil && externalModuleData.isValid() {
 				return nil
 			}
 		}
